@@ -1,4 +1,5 @@
 import JT.Proof.RtpSound
+import JT.Proof.RtpChecked
 /-!
 # C17 — JT1078 RTP packets are decoded as the standard prescribes
 
@@ -72,5 +73,13 @@ example : WF ⟨2, 0, 0, 1, 0, 6, 65535, [0, 0, 0, 0, 0, 0], 255, 3, 2, 1, 0, 0,
   constructor <;> simp
 example : WF ⟨2, 0, 0, 1, 0, 0, 0, [0, 0, 0, 0, 0, 1], 0, 4, 0, 0, 0, 0, [1]⟩ := by
   constructor <;> simp
+
+/-- **Every memory access of `Packet.Decode` / `decodeHead` is in range**: written access by access the way the Go
+code reads the buffer (`data[:4]`, `data[4]`, `data[6:8]`, `data[16:24]`, `data[start:start+2]`, `data[headEnd:]`,
+`body[:DataBodyLen]`, … through accessors that yield `panic` where Go would) the decoder is the model used above and
+has no panic outcome — on every byte string. -/
+theorem rtp_decoder_accesses_in_range (d : Bytes) :
+    Rtp.decodeC d = .ok (Rtp.decode d) ∧ Rtp.decodeC d ≠ .panic :=
+  ⟨Rtp.decodeC_eq d, Rtp.decodeC_ne_panic d⟩
 
 end JT.C17
